@@ -158,8 +158,10 @@ class C34(Prop):
                   "the recorded contentSize when present, every workflow-level input/output value of the run is represented by "
                   "an entity listed under object/result of the root CreateAction, tied by exampleOfWork to the formal parameter "
                   "of that name, with matching sha1+size archive entry for files, literal text for literals, element-wise for "
-                  "arrays and hasPart-reachable File entities for directory members; the CreateActions orchestrated for a step "
-                  "list at least one result and nothing but entities carrying what that step produced). Each exported crate of a real, small, "
+                  "arrays and hasPart-reachable File entities for directory members; every CreateAction orchestrated for a step is "
+                  "the record of one of the step's jobs - its object lists a carrier of everything the job consumed, and "
+                  "nothing else when all its inputs are known, its result lists at least one entity and only carriers of "
+                  "what the job produced - and every job, one per element for a scattered step, has such a record). Each exported crate of a real, small, "
                   "offline CWL run (streamflow run + streamflow prov on an on-disk sqlite database) is parsed and the checker "
                   "is evaluated inside Coq on it; an oracle written independently in Python from the property text judges "
                   "the same crate and the two verdicts are compared. The crate generator (run_crate.py) is NOT modelled.")
@@ -167,9 +169,9 @@ class C34(Prop):
                   "the generator; a crate is only known good when it was actually checked. Trusted: Coq kernel + vm_compute; "
                   "Python json/zipfile/hashlib used to parse the archive and compute digests; the rendering of JSON as "
                   "Gallina terms; the harness's computation of the run's input/output values (inputs from the case spec, "
-                  "outputs from StreamFlow's printed result object and the files on disk; the product of a non-scattered step "
-                  "is known only when it is also a workflow output); step inputs, scattered steps' per-job values and "
-                  "secondaryFiles/record values are not checked.")
+                  "outputs from StreamFlow's printed result object and the files on disk; what a job consumed or produced is "
+                  "known to the harness only when the source is a workflow input or a step output that is also a workflow "
+                  "output; nested scatter, secondaryFiles and record values are not generated and not checked.")
     TECHNIQUE = ("verified checker (Coq soundness+completeness proof of crate_ok w.r.t. a declarative predicate) evaluated "
                  "with vm_compute on crates exported from real runs; independent Python oracle from the property text")
     RULE = ("cases are typed random workflow specs over step kinds cat/echo/num/flag/expr/len/words/ls/mkd/scat/secho/"
@@ -183,7 +185,7 @@ class C34(Prop):
                "Python json, zipfile, hashlib (parsing the exported archive, digests and sizes of its entries)",
                "harness: CWL workflow builder, computation of the run values, JSON->Gallina rendering")
     ASSUMPTIONS = ("run values are the workflow-level inputs (job file) and outputs (result object printed by `streamflow run`), "
-                   "plus, for a non-scattered step whose output is a workflow output, what its actions may list as result",
+                   "plus, per step job, the consumed and produced values whose source is a workflow input or an exported step output",
                    "references whose @id starts with http:// or https:// are web resources and need no entity in the graph",
                    "a literal is represented by its Python str() or JSON text")
     MAX_WORKERS = 8
@@ -477,23 +479,47 @@ class C34(Prop):
                 rel = _tree_files(ds[0]["v"]["tree"])[-1][0]
                 deleted = os.path.join(d, "data", ds[0]["v"]["name"], rel)
                 os.remove(deleted)
-        # what individual (non-scattered) steps produced, known when the step's output is a workflow output
+        # what the jobs of every step consumed and produced, as far as the harness knows it: a source is known when
+        # it is a workflow input or a step output that is also a workflow output
+        def val_of(src):
+            if "/" not in src:
+                ov = next((v for v in values if v["dir"] == "in" and v["param"] == src), None)
+            else:
+                o = next((o for o in c["outputs"] if o["src"] == src), None)
+                ov = o and next((v for v in values if v["dir"] == "out" and v["param"] == o["n"]), None)
+            if not ov or ov["kind"] == "unsupported":
+                return None
+            return json.loads(json.dumps({k: x for k, x in ov.items() if k not in ("dir", "param", "path")}))
+
         steps = []
         for st in c["steps"]:
-            if st["k"] in ("scat", "secho"):
-                continue
-            for o in c["outputs"]:
-                if o["src"] == f"{st['n']}/o":
-                    ov = next((v for v in values if v["dir"] == "out" and v["param"] == o["n"]), None)
-                    if ov is not None and ov["kind"] != "unsupported":
-                        sv = json.loads(json.dumps({k: x for k, x in ov.items() if k not in ("dir", "param")}))
-                        sv["step"] = "wf.cwl#" + st["n"]
-                        steps.append(sv)
-                    break
-        for v in values + steps:   # paths are not part of the observation
-            v.pop("path", None)
-            for it in v.get("items", []) + v.get("files", []):
-                it.pop("path", None)
+            scattered = {"scat": "f", "secho": "m"}.get(st["k"])
+            out = val_of(f"{st['n']}/o")
+            consts = [(p_, val_of(src)) for p_, src in st["in"].items() if p_ != scattered]
+            known = [v for _, v in consts if v is not None]
+            closed = all(v is not None for _, v in consts)
+            if scattered is None:
+                jobs = [{"ins": known, "closed": closed, "out": out}]
+            else:
+                lst = val_of(st["in"][scattered])
+                if lst is None or lst["kind"] != "list":
+                    continue
+                outs = out["items"] if out and out["kind"] == "list" and len(out["items"]) == len(lst["items"]) else None
+                jobs = [{"ins": [dict(it)] + known, "closed": closed, "out": dict(outs[k]) if outs else None}
+                        for k, it in enumerate(lst["items"])]
+            steps.append({"step": "wf.cwl#" + st["n"], "jobs": jobs})
+
+        def strip(v):
+            if isinstance(v, dict):
+                v.pop("path", None)
+                for x in v.values():
+                    strip(x)
+            elif isinstance(v, list):
+                for x in v:
+                    strip(x)
+
+        strip(values)
+        strip(steps)
         r = self._sf(d, ["prov", "run", "--file", "streamflow.yml", "--outdir", os.path.join(d, "crate"),
                          "--name", "crate.zip"])
         zp = os.path.join(d, "crate", "crate.zip")
@@ -647,7 +673,9 @@ def coq_rv(v):
 
 
 def coq_sv(v):
-    return f"(SV {coq_str(v['step'])} {coq_value(v)})"
+    jobs = [f"(Job {coq_list([coq_value(x) for x in j['ins']])} {coq_bool(j['closed'])} "
+            f"{'None' if j['out'] is None else '(Some ' + coq_value(j['out']) + ')'})" for j in v["jobs"]]
+    return f"(SV {coq_str(v['step'])} {coq_list(jobs)})"
 
 
 # ----------------------------------------------------------------------------------------------------
@@ -734,26 +762,34 @@ def oracle_crate(meta, archive, values, steps=()):
         if not any(_represented(seen, archive, a, seen.get(main, {}), v) for a in actions):
             return ("value-missing", f"{v['dir']}put value of {v['param']!r} ({v['kind']}) is not represented: "
                                      f"{json.dumps(v)[:200]}")
-    # -- consistent at step level: the actions of a step list as result what that step produced, nothing else
+    # -- consistent at step level: the actions of a step are the records of its jobs
+    def carries(x, v):
+        return x in seen and _val_ok(seen, archive, seen[x], x, v)
+
+    def parts(a, j):
+        obj, res = _vrefs(a.get("object", [])), _vrefs(a.get("result", []))
+        ins = all(any(carries(x, v) for x in obj) for v in j["ins"])
+        closed = (not j["closed"]) or all(any(carries(x, v) for v in j["ins"]) for x in obj)
+        out = j["out"] is None or (bool(res) and all(carries(x, j["out"]) for x in res))
+        return ins, closed, out
+
     for sv in steps:
-        controls = [c for c in g if "ControlAction" in _types(c) and isinstance(c.get("instrument"), dict)
-                    and c["instrument"].get("@id") == sv["step"]]
-        if not controls:
-            return ("step-missing", f"no ControlAction for step {sv['step']}")
-        for c in controls:
-            for aid in _vrefs(c.get("object", [])):
-                for a in g:
-                    if a["@id"] != aid:
-                        continue
-                    rs = _vrefs(a.get("result", []))
-                    if not rs:
-                        return ("step-result-missing", f"action {a.get('name')!r} of step {sv['step']} lists no result")
-                    for x in rs:
-                        if x not in seen or not _val_ok(seen, archive, seen[x], x, sv):
-                            return ("step-foreign-result",
-                                    f"action {a.get('name')!r} of step {sv['step']} lists result {x!r} "
-                                    f"({seen.get(x, {}).get('alternateName', seen.get(x, {}).get('value'))}), which is "
-                                    f"not what the step produced ({json.dumps(sv)[:150]}); it lists {len(rs)} results")
+        ctl = [c for c in g if "ControlAction" in _types(c) and isinstance(c.get("instrument"), dict)
+               and c["instrument"].get("@id") == sv["step"]]
+        acts = [a for a in g if any(a["@id"] in _vrefs(c.get("object", [])) for c in ctl)]
+        for a in acts:
+            ps = [parts(a, j) for j in sv["jobs"]]
+            if not any(all(p_) for p_ in ps):
+                best = max(ps, key=sum) if ps else (True, True, True)
+                clause = ("step-action-without-job" if not ps else "step-input-missing" if not best[0]
+                          else "step-input-foreign" if not best[1] else "step-foreign-result")
+                return (clause, f"action {a.get('name')!r} of step {sv['step']} (object {len(_vrefs(a.get('object', [])))}, "
+                                f"result {len(_vrefs(a.get('result', [])))}) is not the record of any of the step's "
+                                f"{len(sv['jobs'])} job(s): {json.dumps(sv['jobs'])[:260]}")
+        for j in sv["jobs"]:
+            if not any(all(parts(a, j)) for a in acts):
+                return ("step-job-unrecorded", f"no action of step {sv['step']} ({len(acts)} action(s)) records the job "
+                                               f"{json.dumps(j)[:260]}")
     return None
 
 
